@@ -85,6 +85,20 @@ def load_api(only_auth=False):
             shutil.rmtree(d, ignore_errors=True)
     api["keyfile_roundtrip"] = keyfile_roundtrip
 
+    def keyfiles_load(pri, pub):
+        d = tempfile.mkdtemp(prefix="cctw")
+        try:
+            name = os.path.join(d, "k")
+            with open(name + ".pri", "wb") as f:
+                f.write(pri)
+            with open(name + ".pub", "wb") as f:
+                f.write(pub)
+            lp, lq = C.keyfiles_to_keys(name)
+            return [C.PrivateKey.to_bytes(lp), C.PublicKey.to_bytes(lq)]
+        finally:
+            shutil.rmtree(d, ignore_errors=True)
+    api["keyfiles_load"] = keyfiles_load
+
     def _rs():
         import conda_content_trust.root_signing as RS
         return RS
@@ -377,6 +391,65 @@ def load_api(only_auth=False):
         _own_checker(md)
         return md
     api["build_root_metadata"] = build_root_metadata
+
+    def clock_pair(fn, args):
+        """the same call under two wall clocks (years 1990 and 2900, every way the package can read the time): outcome classes"""
+        import time as _time
+        outs = []
+        mods = [C, A, S, M] + [m for n, m in sys.modules.items() if n.startswith("conda_content_trust.") and m is not None]
+        for year in (1990, 2900):
+            class _FixedDT(datetime.datetime):
+                @classmethod
+                def now(cls, tz=None):
+                    return cls(year, 1, 1, tzinfo=tz)
+
+                @classmethod
+                def utcnow(cls):
+                    return cls(year, 1, 1)
+
+                @classmethod
+                def today(cls):
+                    return cls(year, 1, 1)
+
+            class _FixedTime:
+                def __getattr__(self, n):
+                    return getattr(_time, n)
+
+                @staticmethod
+                def time():
+                    return (year - 1970) * 31557600.0
+
+                @staticmethod
+                def time_ns():
+                    return int((year - 1970) * 31557600.0) * 10 ** 9
+
+            class _FixedDTModule:
+                datetime = _FixedDT
+
+                def __getattr__(self, n):
+                    return getattr(datetime, n)
+            saved = []
+            for m in mods:
+                for attr, val in list(vars(m).items()):
+                    if val is datetime.datetime:
+                        saved.append((m, attr, val)); setattr(m, attr, _FixedDT)
+                    elif val is datetime:
+                        saved.append((m, attr, val)); setattr(m, attr, _FixedDTModule())
+                    elif val is _time:
+                        saved.append((m, attr, val)); setattr(m, attr, _FixedTime())
+            try:
+                try:
+                    api[fn](*copy.deepcopy(args))
+                    outs.append("accept")
+                except BaseException as e:  # noqa
+                    if isinstance(e, KeyboardInterrupt):
+                        raise
+                    outs.append(classify(e))
+            finally:
+                for m, attr, val in saved:
+                    setattr(m, attr, val)
+        return outs
+    api["clock_pair"] = clock_pair
 
     import cryptography.exceptions
     classes = [
